@@ -1,5 +1,6 @@
 import Logrange.Proofs.LineReader
 import Logrange.Proofs.ScanWorker
+import Logrange.Proofs.ScanDrain
 import Logrange.Model.Descs
 import Logrange.Generated.C17
 /-!
@@ -59,6 +60,14 @@ theorem record_nonempty (B n start : Nat) (hB : 1 ≤ B) (src : List Piece) (l :
 /-- `ReadSlice` always answers: the model's fuel (`sliceFuel`) is sufficient for every source. -/
 theorem readSlice_answers (B : Nat) (s : St) : (readSlice B (sliceFuel s) s).2 ≠ .oof :=
   readSlice_fuel B (sliceFuel s) s (by simp [sliceFuel])
+
+/-- **`pending_partial_never_eof`** (the mechanism of finding F50). Once `readLine` holds a partial line (bytes
+without a newline, fewer than a buffer), it never answers EOF, whatever the source does: it returns only when the
+line is completed, the buffer fills, or the context is cancelled. A worker told to run until EOF on a rotated
+file whose last line is never completed therefore never gets the EOF it waits for. -/
+theorem pending_partial_never_eof (B fuel : Nat) (s : St) (partialLine : Bytes) (h : partialLine ≠ []) :
+    (readLineGo B fuel s partialLine).2 ≠ .eof :=
+  readLineGo_pending_never_eof B fuel s partialLine h
 
 /-- the code facts the model's offset accounting rests on, as the extractor reads them from `/repo` now -/
 theorem code_facts :
@@ -179,6 +188,47 @@ theorem crash_resends_bounded (c : Cfg) (start : Nat) (tr : List L) :
   simp only [confEnd, hst] at h3 h12
   exact ⟨by have := h.perLe; omega, h12, h.noRace⟩
 
+/-- **`drains_when_quiet`** (eventual completeness, bounded form). Take any reachable state at a quiet loop head
+(not cancelled, not told to stop, no batch abandoned). If the file has stopped growing with the complete lines
+`lines` still unread — `NextRecord` answers them one by one and then EOF (`lines_concat`: these are exactly the file's
+bytes up to the last complete line) — and the consumer takes and confirms every event at once, then the system
+follows the schedule `drain` of at most `7 · |lines| + 7` steps (`|lines|` ≤ pending bytes, records are
+non-empty; per line 4 steps, 7 when it completes a batch of `k`), after which every pending line has been handed
+over and confirmed (the batch in progress included), the offset is the parser position = start + all confirmed
+bytes, and the next persist stores exactly that end. -/
+theorem drains_when_quiet (k start : Nat) (hk : 1 ≤ k) (tr : List L) (lines : List Bytes) :
+    let s := run (codeCfg k) (init start) tr
+    Quiet s → s.dropped = false →
+    let sched := drain k s.recs.length lines
+    let s' := run (codeCfg k) s sched
+    sched.length ≤ 7 * lines.length + 7 ∧
+    s'.confirmed = s.confirmed ++ s.recs ++ lines ∧ s'.recs = [] ∧
+    s'.pos = s.pos + bytesOf lines ∧ s'.offset = s'.pos ∧ s'.pos = start + bytesOf s'.confirmed ∧
+    ∀ s'', step (codeCfg k) s' .persist = some s'' → s''.persisted = start + bytesOf s''.confirmed := by
+  intro s hq hnd sched s'
+  have hw : WInv s := winv_run _ tr (init start) (winv_init start)
+  have hst : s.start = start := run_start _ tr (init start)
+  have hlen : lenOk k s := lenOk_run (codeCfg k) hk tr (init start) (lenOk_init k start hk)
+  have hlt : s.recs.length < k := by
+    have := hlen; simp only [lenOk, hq.pc] at this; exact this
+  have hoff : s.offset + bytesOf s.recs = s.pos := by
+    have h1 := hw.offEq; have h2 := hw.posEq hnd
+    simp only [hq.pc, isSetting, Bool.false_eq_true, if_false] at h1 h2
+    omega
+  have hd : Drained s s' lines := drain_drains (codeCfg k) hk lines s hq hlt hoff
+  have hw' : WInv s' := winv_run _ _ s hw
+  have hnd' : s'.dropped = false := by rw [hd.dropped]; exact hnd
+  have hpos' : s'.pos = start + bytesOf s'.confirmed := by
+    have := hw'.posEq hnd'
+    simp only [hd.quiet.pc, isSetting, Bool.false_eq_true, if_false, hd.recs, bytesOf_nil, confEnd, hd.start, hst] at this
+    omega
+  refine ⟨drain_length k lines _, hd.confirmed, hd.recs, hd.pos, hd.offset, hpos', ?_⟩
+  intro s'' hp
+  simp only [step, Option.some.injEq] at hp
+  subst hp
+  show s'.offset = start + bytesOf s'.confirmed
+  rw [hd.offset, hpos']
+
 /-! ## rotation -/
 
 /-- **`rotated_file_drained`** A worker that ended through the "EOF reached" rule has seen, *after* it was told to
@@ -266,6 +316,13 @@ example : (readLines 2 1 { pieces := [.data [1], .eof, .data [2], .eof, .data [3
 example :
     let s := run ⟨1, true, true⟩ (init 0) [.step, .next (.record [97, 10]), .step, .send, .confirm, .setOffset, .persist]
     s.persisted = 2 ∧ s.confirmed = [[97, 10]] ∧ isSetting s.pc = false := by decide
+
+/-- a quiet period: two pending lines, batches of 2, starting from the initial state: 7 + 7... steps, both lines
+confirmed, offset 4 persisted -/
+example :
+    let s' := run (codeCfg 2) (init 0) (drain 2 0 [[97, 10], [98, 10]] ++ [.persist])
+    s'.confirmed = [[97, 10], [98, 10]] ∧ s'.persisted = 4 ∧ s'.pc = .top ∧
+    (drain 2 0 [[97, 10], [98, 10]]).length = 16 := by decide
 
 /-- the fixed loop on the stale-EOF schedule keeps running (it goes back to the loop head) -/
 example : (run ⟨1, true, true⟩ (init 0) [.step, .next .eof, .step, .stopOnEOF, .wake, .step]).pc = .top := by decide
